@@ -87,6 +87,7 @@ type pooledServer struct {
 
 var (
 	poolMu sync.Mutex
+	startMu sync.Mutex
 	pool   = map[srvKey]*pooledServer{}
 	pa     *h.PortAlloc
 )
@@ -127,7 +128,9 @@ func serverFor(k srvKey) (*pooledServer, error) {
 		case "otherca":
 			fmt.Fprintf(&sb, "transport.tls.certFile = \"%s\"\ntransport.tls.keyFile = \"%s\"\n", pki.SrvOtherCACrt, pki.SrvOtherCAKey)
 		}
+		startMu.Lock() // NewService writes package-level state: one at a time
 		ps.Srv, ps.Err = h.StartServerText(prop, sb.String())
+		startMu.Unlock()
 		if ps.Err == nil {
 			run.Count("servers_started", 1)
 		}
